@@ -97,19 +97,32 @@ def model : Drv Engine where
           (e', obs e')
         else (e, ["panic"])
 
-/-- spec state: per instrument, association list cid ↦ lifecycle state; `poisoned` once a hand-built
-cancel-in-flight marker was seen (the lifecycle says nothing about those) -/
+/-- spec state: per instrument, association list cid ↦ the lifecycle states the property allows
+(more than one only after a report whose exchange timestamp EQUALS the held one: the property
+demands "never back to an older timestamp" and is silent on which of two equal-time reports is
+kept); `poisoned` once a hand-built cancel-in-flight marker was seen (the lifecycle says nothing
+about those) -/
 structure SpecSt where
-  tables : List (List (Nat × Active))
+  tables : List (List (Nat × List (Option Active)))
   poisoned : Bool
 
-def specLookup (t : List (Nat × Active)) (c : Nat) : Option Active := (t.find? (·.1 == c)).map (·.2)
+def specLookup (t : List (Nat × List (Option Active))) (c : Nat) : List (Option Active) :=
+  ((t.find? (·.1 == c)).map (·.2)).getD [none]
 
-def specSet (t : List (Nat × Active)) (c : Nat) (v : Option Active) : List (Nat × Active) :=
-  let t' := t.filter (·.1 != c)
-  match v with
-  | some a => (c, a) :: t'
-  | none => t'
+def specSet (t : List (Nat × List (Option Active))) (c : Nat) (v : List (Option Active)) :
+    List (Nat × List (Option Active)) :=
+  (c, v) :: t.filter (·.1 != c)
+
+/-- the other admissible outcome of an equal-timestamp open report: keep what is held -/
+def tieAlternatives (st : Option Active) (op : Op) (c : Nat) : List (Option Active) :=
+  match op.input c, st with
+  | some (.reportOpen o false), some (.opn h) => if h.t == o.t then [some (.opn h), some (.opn o)] else []
+  | some (.reportOpen o false), some (.cancelInFlight (some h)) =>
+    if h.t == o.t then [some (.cancelInFlight (some h)), some (.cancelInFlight (some o))] else []
+  | _, _ => []
+
+def dedupStates (l : List (Option Active)) : List (Option Active) :=
+  l.foldl (fun acc x => if acc.contains x then acc else acc ++ [x]) []
 
 def specApply (s : SpecSt) (i : Nat) (op : Op) : SpecSt :=
   if !op.exchangeStatesOnly then { s with poisoned := true } else
@@ -117,12 +130,25 @@ def specApply (s : SpecSt) (i : Nat) (op : Op) : SpecSt :=
   | none => s
   | some t =>
     let c := op.cid
-    { s with tables := s.tables.set i (specSet t c (Lifecycle.stepOp c (specLookup t c) op)) }
+    let next := dedupStates ((specLookup t c).flatMap fun st =>
+      Lifecycle.stepOp c st op :: tieAlternatives st op c)
+    { s with tables := s.tables.set i (specSet t c next) }
+
+def fmtAlt (c : Nat) (alts : List (Option Active)) : Option String :=
+  let toks := alts.map fun a => match a with
+    | some a => s!"{c}:{fmtActive a}"
+    | none => "-"
+  match toks with
+  | ["-"] => none
+  | [one] => some one
+  | many => some ("{" ++ "|".intercalate many ++ "}")
 
 def specObs (s : SpecSt) : List String :=
   if s.poisoned then [] else
-  s.tables.zipIdx.map fun (t, i) =>
-    s!"st{i} " ++ " ".intercalate ((sortByCid t).map fun (c, a) => s!"{c}:{fmtActive a}")
+  s.tables.zipIdx.filterMap fun (t, i) =>
+    -- an id that may or may not be tracked cannot be expressed positionally: stay silent on that table
+    if t.any (fun (_, alts) => alts.length > 1 && alts.contains none) then none else
+    some (s!"st{i} " ++ " ".intercalate ((sortByCid t).filterMap fun (c, alts) => fmtAlt c alts))
 
 def spec : Drv SpecSt where
   init := ⟨[], false⟩
